@@ -33,7 +33,7 @@ func buildEvidence(cfg *config, results []*jobResult, extra map[string]interface
 			distinct[jr.job.WL+jr.job.Mode+s] = true
 		}
 		for k, v := range jr.stats {
-			if k == "yield_sites" || k == "package_vars" || k == "site_pairs_this_process" {
+			if k == "yield_sites" || k == "package_vars" || k == "site_pairs_this_process" || k == "go_statements_in_tree" {
 				if v > stats[k] {
 					stats[k] = v
 				}
